@@ -34,6 +34,14 @@ class GroupSym(AbstractValue):
     def v_unpack(self, n, it):
         return [CoordOf(self, i) for i in range(n)]
 
+    def v_identity(self, other, it):
+        """`pt is CONST` for the generic point: either outcome; when it holds, P stands for that constant on the path
+        (the table ladder rule reads the alias back from the path facts)"""
+        if self.comb != {"P": Poly.const(1)} or not _concrete_point(other):
+            return NotImplemented
+        it.world.__dict__.setdefault("alias_objs", {})[id(other)] = other
+        return Term("same_object", ("P", id(other)), "bool")
+
     def __repr__(self):
         return " + ".join(f"[{c!r}]{b}" for b, c in self.comb.items()) or "O"
 
@@ -100,7 +108,129 @@ def classify_point(v):
             return GroupSym({})              # projective (., ., 0)
         if isinstance(v[0], int) and isinstance(v[1], int) and v[0] == 0 and v[1] == 0:
             return GroupSym({})              # Jacobian marker (0, 0, *)
+        if _concrete_point(v) and _fv_zero(v[2]):
+            return GroupSym({})              # a projective constant (., ., 0) of the module (Z1, Z2)
     return None
+
+
+def _concrete_point(v):
+    from .fieldmodel import FieldVal
+    return isinstance(v, tuple) and len(v) in (2, 3) and all(isinstance(c, FieldVal) for c in v)
+
+
+def _fv_zero(c):
+    return c.v == 0 if c.kind == "FQ" else all(x == 0 for x in c.v)
+
+
+def _alias_of(it):
+    """the module constant the generic point was found identical with on this path, or None"""
+    reg = it.world.__dict__.get("alias_objs", {})
+    for a, t in it.facts.items():
+        if isinstance(a, Term) and a.op == "same_object" and a.args[0] == "P" and t is True and a.args[1] in reg:
+            return reg[a.args[1]]
+    return None
+
+
+def _affine_int(pt):
+    """(x, y) integers of a concrete prime-field point (projective (x : y : z) or affine), None for the identity"""
+    from .nt import inv_mod
+    if any(c.kind != "FQ" for c in pt):
+        raise AnalysisError("table ladder over an extension-field base point: outside the schema")
+    p = pt[0].p
+    if len(pt) == 2:
+        return (pt[0].v % p, pt[1].v % p), p
+    if pt[2].v % p == 0:
+        return None, p
+    zi = inv_mod(pt[2].v, p)
+    return (pt[0].v * zi % p, pt[1].v * zi % p), p
+
+
+def _double_affine(A, p):
+    from .nt import inv_mod
+    if A is None:
+        return None
+    x, y = A
+    if y == 0:
+        return None
+    lam = 3 * x * x * inv_mod(2 * y, p) % p          # curves y² = x³ + b (a = 0): all four pairing curves
+    x3 = (lam * lam - 2 * x) % p
+    return (x3, (lam * (x - x3) - y) % p)
+
+
+def _ladder_table(it, st, seq, fr, n, notes, order=None):
+    """fixed-base table:  for i, entry in enumerate(T): if bit i of n: R = R + entry   with T[i] = 2^i·B a module constant,
+    reached on a path where the generic point was found identical with B.  Σ_i bit_i(n)·2^i·B = (n mod 2^len(T))·B"""
+    import ast as _ast
+    from .interp import _assigned_names, _Break, _Continue
+    if not (isinstance(seq, list) and len(seq) >= 2 and isinstance(st.target, _ast.Tuple) and len(st.target.elts) == 2
+            and all(isinstance(e, _ast.Name) for e in st.target.elts)
+            and all(isinstance(x, tuple) and len(x) == 2 and isinstance(x[0], int) and _concrete_point(x[1]) for x in seq)
+            and [x[0] for x in seq] == list(range(len(seq)))):
+        return NotImplemented
+    where = it.where(st)
+    base = _alias_of(it)
+    if base is None:
+        raise AnalysisError(f"{where}: loop over a table of constant points with no relation to the point being multiplied")
+    L = len(seq)
+    B, p = _affine_int(base)
+    cur, okT = B, True
+    for i, ent in seq:
+        E, _p = _affine_int(ent)
+        if E != cur:
+            okT = False
+            break
+        cur = _double_affine(cur, p)
+    notes.append((f"table ladder {where}: entry i is 2^i·B for the constant B the point was found identical with ({L} entries, "
+                  f"checked with the checker's own arithmetic)", okT, "" if okT else f"entry {i} is not 2^{i}·B"))
+    iname, ename = st.target.elts[0].id, st.target.elts[1].id
+    carried = [nm for nm in sorted(_assigned_names(st.body)) if nm in fr.env and nm not in (iname, ename)]
+    pts = [nm for nm in carried if _coef(fr.env[nm]) is not None]
+    if len(carried) != 1 or len(pts) != 1:
+        raise AnalysisError(f"{where}: table loop carries {carried}: expected exactly one accumulator point")
+    R = pts[0]
+    k0 = _coef(fr.env[R])
+    i = var("i", "int")
+    pres = True
+    saved, sfacts = dict(fr.env), dict(it.facts)
+    for b in (0, 1):
+        fr.env.clear(); fr.env.update(saved)
+        it.facts.clear(); it.facts.update(sfacts)
+        fr.env[iname] = i
+        fr.env[ename] = GroupSym({"E": Poly.const(1)})
+        fr.env[R] = GroupSym({"P": Poly.var("K")})
+        sh = Term("rshift", (n, i), "int")
+        for bit in (t_arith_and(sh, 1), Term("mod", (sh, 2), "int"), Term("and", (n, Term("lshift", (1, i), "int")), "int")):
+            _bit_facts(it, bit, b)
+        nt = len(it.oracle.trace)
+        try:
+            it.exec_block(st.body, fr)
+        except (_Break, _Continue):
+            pres = False
+        if len(it.oracle.trace) != nt:
+            raise AnalysisError(f"{where}: the table loop tests something other than bit i of the scalar")
+        g = classify_point(fr.env.get(R))
+        want = {"P": Poly.var("K")}
+        if b:
+            want["E"] = Poly.const(1)
+        if g is None or {k: repr(v) for k, v in g.comb.items()} != {k: repr(v) for k, v in want.items()}:
+            pres = False
+    fr.env.clear(); fr.env.update(saved)
+    it.facts.clear(); it.facts.update(sfacts)
+    notes.append((f"table ladder {where}: each round adds entry i exactly when bit i of n is set", pres, ""))
+    flo, fhi, fholes, _ = interval_of_facts(list(it.facts.items()), n)
+    if order is None:
+        flo = max(flo, 0)
+    bounded = flo >= 0 and fhi < (1 << L)
+    notes.append((f"table ladder {where}: the scalar fits the table (0 <= n < 2^{L}); otherwise the loop returns (n mod 2^{L})·B", bounded,
+                  "" if bounded else f"n is bounded by [{flo}, {fhi}] on this path: bits at positions >= {L} are dropped"))
+    ok = okT and pres
+    scal = Poly.var("n") if (ok and bounded) else Poly.var(f"n_mod_2^{L}" if ok else "unverified_ladder")
+    fr.env[R] = GroupSym({"P": k0 + scal})
+    fr.env[iname] = L - 1
+    fr.env[ename] = GroupSym({"P": Poly.var("unused_table_entry")})
+    return None
+
+
 
 
 def scalar_poly(t, order=None):
@@ -296,7 +426,8 @@ def _check_multiply_schema(world, f, order=None, self_names=(), double_q=None, a
     def run(it):
         return it.call_func(f, [pt, n], {})
     ladder_notes = []
-    paths = enumerate_paths(world, run, summaries=summ, loop_hooks={"*": lambda it, st, seq, fr: _ladder_for(it, st, seq, fr, n, ladder_notes, order)},
+    paths = enumerate_paths(world, run, summaries=summ, loop_hooks={"*": lambda it, st, seq, fr: _ladder_for(it, st, seq, fr, n, ladder_notes, order),
+                                                                    "concrete": lambda it, st, seq, fr: _ladder_table(it, st, seq, fr, n, ladder_notes, order)},
                             while_hooks={"*": lambda it, st, fr: _ladder_while(it, st, fr, n, ladder_notes)})
     for key, ok, det in ladder_notes:
         if (key, ok, det) not in results:
